@@ -397,6 +397,16 @@ func verifSymbolicConstraints(ncpu int, mode int) (allowed, reserved, isolated c
 	case 3: // CPU 0 reserved, symbolic kernel-isolated set
 		isolated = verifNondetCPUSet("isolated", ncpu)
 		verifAssume(isolated.Intersection(cpuset.New(0)).IsEmpty())
+		if within := verifParam("isolatedWithin", 0); within != 0 {
+			// bound: isolated CPUs only among the CPUs of this bit mask
+			bound := cpuset.New()
+			for i := 0; i < ncpu; i++ {
+				if within&(1<<uint(i)) != 0 {
+					bound = bound.Union(cpuset.New(i))
+				}
+			}
+			verifAssume(isolated.IsSubsetOf(bound))
+		}
 		return all, cpuset.New(0), isolated
 	default: // everything symbolic
 		allowed = verifNondetCPUSet("allowed", ncpu)
